@@ -47,9 +47,23 @@ def run_case(case):
             short_gaps = np.sort(rng.choice(np.arange(5, n - 5), int(rng.integers(3, 7)), replace=False))
             gaps[short_gaps] = rng.uniform(0.5, 0.55, short_gaps.size)
             drift = float(rng.uniform(-30, 30)) * 1e-6
+        force_linear = None
+        if short_gaps is None and rng.random() < 0.12:
+            # the longest admissible recording with the largest drift (the ends are only matched in the second assignment pass) and the shortest admissible
+            # intervals sprinkled all over it, so that the pairs the second pass starts from are often less than a second apart
+            n = int(rng.integers(292, 301))
+            gaps = rng.uniform(9.5, 10, n)
+            gaps[rng.random(n) < 0.05] = rng.uniform(0.5, 0.6)
+            # ... and densely where the first pass (a window of +-0.1 s around one global delay) stops matching: about 1000 s either side of the middle
+            for z0 in (int(n * 0.12), int(n * 0.76)):
+                zi = np.arange(z0, z0 + int(n * 0.12))
+                gaps[zi[rng.random(zi.size) < 0.5]] = rng.uniform(0.5, 0.6)
+            drift = float(rng.choice([-1, 1])) * float(rng.uniform(95, 100)) * 1e-6
+            force_linear = True
+            res.count("long_high_drift_sprinkled_trains")
         t_true = np.cumsum(gaps) + float(rng.uniform(0, 100))
         offset = float(rng.uniform(-180, 180))
-        jit = float(rng.uniform(0, 1e-4))
+        jit = float(rng.uniform(0, 1e-4)) if force_linear is None else float(rng.uniform(0.7e-4, 1e-4))
         ma, mb = int(rng.integers(0, 6)), int(rng.integers(0, 6))
         drop_a = np.sort(rng.choice(n, ma, replace=False))
         drop_b = np.sort(rng.choice(np.setdiff1d(np.arange(n), drop_a), mb, replace=False))
@@ -71,6 +85,8 @@ def run_case(case):
         tb_exact = t_true * (1 + drift) + offset
         tsb = tb_exact[ib_true] + rng.uniform(-jit, jit, ib_true.size)
         linear = bool(rng.integers(0, 2))
+        if force_linear is not None:
+            linear = force_linear
         label = f"n={n} drift={drift * 1e6:.1f}ppm offset={offset:.2f}s missing a={drop_a.tolist()} b={drop_b.tolist()} jitter={jit * 1e3:.3f}ms linear={linear}"
         res.count("trains")
         tsa0, tsb0 = tsa.copy(), tsb.copy()
@@ -92,7 +108,9 @@ def run_case(case):
         res.check(not false_pairs, "sync:false-pair", f"{label}: {len(false_pairs)} returned pairs are not true correspondences, e.g. {sorted(false_pairs)[:3]}")
         frac = len(got_pairs & true_pairs) / max(1, len(true_pairs))
         res.measure("min_fraction_true_pairs_returned", frac, kind="min")
-        res.check(frac >= 0.95, "sync:missed-pairs", f"{label}: only {frac:.1%} of the {len(true_pairs)} true correspondences returned")
+        # "nearly all": at most two pairs, or 1 % of them, may be left out (measured on the unchanged code over 480 000 trains of every class: none is ever left out)
+        nmiss = len(true_pairs - got_pairs)
+        res.check(nmiss <= max(2, 0.01 * len(true_pairs)), "sync:missed-pairs", f"{label}: only {frac:.1%} of the {len(true_pairs)} true correspondences returned ({nmiss} left out)")
         # mapping at held-out events (present on b only) and at all events
         T = float(t_true[-1] - t_true[0])
         tol_map = 2e-3
